@@ -27,3 +27,30 @@ package logging
 //@ func (*Instance).Criticalf
 //@   noverify
 //@   pure
+
+// ---- C19: each option writes exactly the setting it names (and nothing else), ignores foreign objects ----
+// (skeletons generated once from the code by `govc optgen`, then reviewed against each option's documentation)
+
+//@ func WithFormatter$1 [C19]
+//@   modifies as(o, "*logging.Instance").Formatter
+//@   ensures #applies typeis(o, "*logging.Instance") ==> result == nil && as(o, "*logging.Instance").Formatter == f
+//@   ensures #ignored !typeis(o, "*logging.Instance") ==> result == util.ErrIgnoredOption
+
+//@ func WithLevel$1 [C19]
+//@   let valid = lower(s) == "info" || lower(s) == "debug" || lower(s) == "critical"
+//@   modifies as(o, "*logging.Instance").Level
+//@   ensures #applies typeis(o, "*logging.Instance") && valid ==> result == nil && as(o, "*logging.Instance").Level == lower(s)
+//@   ensures #invalid-rejected typeis(o, "*logging.Instance") && !valid ==> isErr(result, util.ErrBadOption) && as(o, "*logging.Instance").Level == old(as(o, "*logging.Instance").Level)
+//@   ensures #ignored !typeis(o, "*logging.Instance") ==> result == util.ErrIgnoredOption
+
+//@ func WithLogger$1 [C19]
+//@   modifies as(o, "*logging.Instance").Loggers
+//@   ensures #applies typeis(o, "*logging.Instance") ==> result == nil && as(o, "*logging.Instance").Loggers == old(as(o, "*logging.Instance").Loggers) ++ refs(f)
+//@   ensures #ignored !typeis(o, "*logging.Instance") ==> result == util.ErrIgnoredOption
+
+
+//@ func NewInstance [C19]
+//@   modifies alloc()
+//@   ensures #fresh result.1 == nil ==> fresh(result.0)
+//@   ensures #nil-on-error result.1 != nil ==> result.0 == nil
+//@   loop 1 invariant -1 <= rangeindex && rangeindex < len(opts)
